@@ -802,5 +802,6 @@ func TestProp(t *testing.T) {
 		vt.Func[FCase]{Name: subFilters, Body: filterStreams, One: runOneF},
 		vt.Func[Case]{Name: subTree, Body: treePointers, One: runOne},
 		vt.Func[Case]{Name: subDup, Body: dupMessages, One: runOne},
+		vt.Func[Case]{Name: subWrap, Body: wrapDims, One: runOne},
 	)
 }
